@@ -3,36 +3,56 @@ from . import COMMON_TB, NOTE
 PROP = {
     "modules": [],
     "streams": [{"name": "errloc"}],
-    "rule": "errloc: a placement generator puts exactly one failing construct (syntax error in an object and in each kind of tag, unknown tag, "
-            "unknown filter, a filter's own error, conversion errors, unbalanced blocks, strict-mode undefined variable, break/continue/cycle "
-            "outside a loop, non-integer loop modifiers, include of a missing file / non-string / file with an error inside) at every piece "
+    "rule": "errloc: a placement generator puts exactly one failing construct of one of 32 kinds (syntax error in an object, in the tags "
+            "assign, cycle, if, unless, case, for, tablerow and in an elsif / when clause - capture checks no syntax, the argument of include is parsed at render time and not placed; unknown tag; "
+            "unknown filter; a filter's own error (divided_by, url_decode); conversion errors in a filter and in a range; a render-time "
+            "error in an elsif / when expression; unbalanced blocks (missing end, stray end / else / when / elsif, unterminated "
+            "comment / raw); strict-mode undefined variable; break/continue/cycle "
+            "outside a loop; non-integer loop modifiers; include of a missing file / non-string / file with an error inside) at every piece "
             "boundary (every line) of generated error-free templates nested 0..6 deep (if/elsif/else, unless, case/when, for, for-else, tablerow, "
-            "capture; multi-line tags and objects), with and without a path, start line 0, 1, 7; each placement is a `render` case compared with "
-            "the model, and the real result is checked against the placement: error and no output, LineNumber, Path, kind of Cause, message; "
+            "capture; multi-line tags and objects), every kind that is applicable there (render-time kinds only at executed positions); "
+            "each placement takes ONE spelling of the kind, drawn at random, and ONE of the six combinations (with / without a path) x "
+            "(start line 0, 1, 7), cycling through them (thorough: all six for about one placement in eight); each placement is a `render` case compared with "
+            "the model, and the real result is checked against the placement: error and no output (Render and RenderString), LineNumber, Path, "
+            "kind of Cause, message; "
             "non-trivial = distinct (kind, depth, line, path/start) with an error result",
     "trusted_base": COMMON_TB + ["the placement generator's own bookkeeping of where it put the construct (offset -> line)"],
-    "assumptions": ["for an error inside an included file the property does not fix the line; only Path and the error are checked there"],
+    "assumptions": ["for an error inside an included file the property does not fix the line; only Path and the error are checked there",
+                    "that the reported line is the line of the INNERMOST failing tag or object is proved only node by node "
+                    "(obj_error_located, wrap_keeps_located); for whole templates it rests on the errloc placements"],
 }
 
 TEXT = {
     "text": ('Theorems: an error that already carries a line (or a path) is returned unchanged by every enclosing node '
               '(wrap_keeps_located, wrapAt_keeps), an unlocated error is located at the first node that wraps it and kept as the '
-              'cause (wrap_locates, cause_preserved_by_wrap), every failure leaving a node is a located error '
+              'cause (wrap_locates, cause_preserved_by_wrap), every failure leaving the wrapping combinators of a node is a located error '
               '(wrapFailAt_located, wrapAt_located), a failing object is reported at its own line with the evaluation error as '
               "cause (obj_error_located, strict_undefined), a syntax error in an object is reported at the object token's line "
-              'which by C05 scan_line_at is start line + preceding newlines (parse_obj_error_line), and a run is output or an '
-              'error, never both (run_output_xor_error). Whole-template form (render_error_line_in_tree, by induction over the render '
+              'which by C05 scan_line_at is start line + preceding newlines (parse_obj_error_line). That a run is output or an '
+              'error, never both, holds in the model by construction - `run` returns a sum type, and run_output_xor_error is only '
+              'the case split over its constructors; on the real code it is the errloc oracle that checks it. Whole-template form (render_error_line_in_tree, by induction over the render '
               'tree, for every writer behaviour): every failure of rendering an include-free node tree, and every break/continue that '
-              'reaches the top, is a located error whose line is the line of one of the tree\'s tags, objects or texts (or 0 for a '
-              'writer failure at a node without location at top level). From source bytes (run_error_at_tag_or_object, for every source text, '
-              'delimiter set, value layer, file system and environment): whenever run returns an error for a source without an include tag, '
-              'compile-time or render-time, some token t of scan that is a TAG or an OBJECT has e.line = t.line = start line + number of '
+              'reaches the top, is a located error whose line is 0 or the line of one of the tree\'s tags, objects or texts. '
+              'From source bytes (run_error_at_tag_or_object, for every source text, '
+              'delimiter set, value layer, file system and environment, fault-free writer): whenever run returns an error for a source without an include tag, '
+              'compile-time or render-time, SOME token t of scan that is a TAG or an OBJECT has e.line = t.line = start line + number of '
               'newline bytes of the source before t, the token sources partition the source, and the error names the configured path; '
-              'for spelled templates the error points at an item that is a tag or object (run_spell_error_at_item); with an include tag the line can be one of the included file instead (include_error_line). Tie: the `errloc` stream places every kind of failing construct at every '
-              'nesting depth, with/without path and start line, compares model and real engine (kind, line, path, cause) and '
+              'for a template spelled from a Clean item list under GoodDelims (C19) without an include tag the error points at some item '
+              'that is a tag or object (run_spell_error_at_item); with an include tag the line can be one of the included file instead '
+              '(include_error_line). Tie: the `errloc` stream places each of its 32 kinds of failing construct at every '
+              'nesting depth 0..6, one (path, start line) combination per placement, compares model and real engine (kind, line, path, cause) and '
               'checks the line against the known position.'),
     "design_ref": 'DESIGN.md 6 C07',
-    "note": NOTE + (""),
+    "note": NOTE + ('The whole-template and source-level theorems are existential: the error line is the line of SOME node of the tree '
+              '(whole-template form: tags, objects, texts, or 0) resp. of SOME tag or object token of the source (source-level form: '
+              'never a text-only line, never an invented line); that it is the innermost offending construct is proved '
+              'only locally (obj_error_located, wrap_keeps_located) and otherwise checked by the errloc placements. They are about '
+              'include-free templates (an error inside an included file carries that file\'s line: include_error_line). In '
+              'render_error_line_in_tree line 0 is allowed without condition; that it only arises for a writer failure at a node '
+              'without location (raw, trim marker, final flush) at top level is explained in a comment of Proofs/C07Lines.lean, not '
+              'proved (for the fault-free writer run_error_at_tag_or_object always finds a tag or object token). The predicates AllFail / Post hold trivially '
+              'of a run that ends in the model outcomes panic or unmodelled, so "every failure" means every `fail` outcome. errloc does '
+              'not place a syntax error in the argument of an include tag (found at render time), nor a for block with two else clauses.'),
     "technique": ('Lean 4 proof (wrapError case analysis; AllFail predicate on interaction trees) + model/implementation '
               'correspondence + placement oracle on the implementation'),
 }
